@@ -1079,3 +1079,36 @@ B('pBg_bound_methods_set_of_declared_or_known', ['C06'], 'R06.d', (R, _G_BM, "  
 B('pBg_bound_methods_default_then_overwritten', ['C06'], 'R06.d',
   (R, _G_BM, "        self.methods = frozenset(HTTP_METHODS)\n        if route.methods:\n            self.methods = route.methods\n"))
 B('pBg_null_route_declares_the_known_methods', ['C06'], 'R06.d', (R, _G_NR, "                                        slash_mode=S_REWRITE, methods=HTTP_METHODS)\n"))
+
+
+# ---------------------------------------------------------------------------------------------- round x (seventh pass)
+# the Location assembled by a public helper that takes the request (two bindings of the query under try / except, ``+``),
+# the nest flattened, ``route.is_branch`` read once into a local
+_X_QS = "_QUERY_SAFE = \":/?#[]@!$&'()*+,;=%\"\n"
+
+
+def _x_helper(path="url_quote(canonical)", fallback="url_quote(raw, safe=_QUERY_SAFE)"):
+    return (_X_QS + "\n\ndef slash_location(request, canonical):\n"
+            "    raw = request.query_string\n"
+            "    try:\n"
+            "        query = raw.decode('utf8')\n"
+            "    except UnicodeDecodeError:\n"
+            "        query = " + fallback + "\n"
+            "    return request.url_root.rstrip('/') + " + path + " + '?' + query\n")
+
+
+def _x_slash(alias="route.is_branch"):
+    return ("            is_branch = " + alias + "\n"
+            "            norm_path = url_path\n"
+            "            if is_branch:\n"
+            "                norm_path = normalize_path(url_path, is_branch)\n"
+            "            if norm_path != url_path:\n"
+            "                if route.slash_mode == S_REDIRECT:\n"
+            "                    return redirect(slash_location(request, norm_path))\n"
+            "                if route.slash_mode == S_STRICT:\n" + _STRICT)
+
+
+T('pBx_twin_location_helper_branch_flag_local', ['C06', 'C07'], (A, _X_QS, _x_helper()), (A, _SLASH, _x_slash()))
+B('pBx_location_helper_path_unquoted', ['C07'], 'R07.b', (A, _X_QS, _x_helper(path="canonical")), (A, _SLASH, _x_slash()))
+B('pBx_location_helper_query_requoted', ['C07'], 'R07.b', (A, _X_QS, _x_helper(fallback="url_quote(raw)")), (A, _SLASH, _x_slash()))
+B('pBx_branch_flag_local_is_something_else', ['C07'], 'R07.a', (A, _X_QS, _x_helper()), (A, _SLASH, _x_slash(alias="bool(route.pattern)")))
